@@ -302,8 +302,10 @@ func (cr *crasher) checkImage(label string, e *expT, mutate func(img string) err
 	res := cr.judgeImage(label, e, img)
 	// known finding fields_log_zero_filled_tail_accepted: the image is a fields.idxl whose last (unacknowledged) entry has its
 	// full length but a zero-filled tail, and the recovered shard panics on / refuses the field of that entry (type byte 0)
-	if res != nil && len(res.Patterns) == 0 && strings.HasPrefix(label, "zero-filled fields.idxl append of Write") && len(e.W) > 0 &&
-		(strings.Contains(res.Msg, "influxql.DataType") || strings.Contains(res.Msg, "rejects a write") || strings.Contains(res.Msg, "read error")) {
+	// (a zero-filled image is not a prefix truncation, i.e. outside C02's quantifier; whatever such an image of fields.idxl
+	// does to the recovered schema -- Unknown type, refused write, read error, or a garbled field name that makes the
+	// entry's field unreadable -- has this one root cause: the change log has no checksum)
+	if res != nil && len(res.Patterns) == 0 && strings.HasPrefix(label, "zero-filled fields.idxl append of Write") && len(e.W) > 0 {
 		res.Patterns = append(res.Patterns, "fields_log_zero_filled_tail_accepted")
 	}
 	if res != nil && len(res.Patterns) > 0 {
